@@ -177,3 +177,19 @@ class ModuleResidue:
                     if c != b:
                         out.append((m.__name__, k, c))
         return sorted(out, key=repr)
+
+
+def guarded(fn, *a, pair=False):
+    """Run one oracle evaluation `fn(*a)` -> list of (cause, msg).  If reading psutil's answer makes the ORACLE stumble
+    (it indexes / unpacks / takes attributes of a value that has not the documented shape) that is reported as a violation
+    of its own cause instead of crashing the run (which the runner would report as a machinery failure, exit 2).
+    On the unchanged tree no oracle stumbles, so this can only fire for a tree whose answers changed shape."""
+    import traceback
+    try:
+        return fn(*a)
+    except (AttributeError, TypeError, KeyError, IndexError, ValueError, AssertionError) as e:
+        tb = traceback.extract_tb(e.__traceback__)
+        where = "%s:%d" % (os.path.basename(tb[-1].filename), tb[-1].lineno)
+        bad = [("answer-not-of-documented-shape:%s" % type(e).__name__,
+                "the oracle could not read psutil's answer: %s: %s at %s (case %r)" % (type(e).__name__, e, where, a[0] if a else None))]
+        return (bad, "shape") if pair else bad
